@@ -117,85 +117,42 @@ func init() {
 				for _, n := range names {
 					f := sp.Members[n].(*ssa.Function)
 					key := "bij/" + t.pkg + "." + n
-					var mc *ssa.MakeClosure
-					for _, b := range f.Blocks {
-						for _, ins := range b.Instrs {
-							if x, ok := ins.(*ssa.MakeClosure); ok {
-								mc = x
-							}
-						}
-					}
-					if len(f.AnonFuncs) != 1 {
-						s.Unknown(key, c.P.Pos(f.Pos()), fmt.Sprintf("constructor contains %d function literals, expected 1", len(f.AnonFuncs)))
+					ap := applyOption(c, f)
+					if ap.why != "" {
+						s.Bad(key, c.P.Pos(f.Pos()), "cannot tell what applying the option does: "+ap.why)
 						continue
 					}
-					g := f.AnonFuncs[0]
-					var stores []*ssa.Store
-					other := false
-					for _, b := range g.Blocks {
-						for _, ins := range b.Instrs {
-							switch x := ins.(type) {
-							case *ssa.Store:
-								stores = append(stores, x)
-							case *ssa.Call, *ssa.Go, *ssa.Defer, *ssa.MapUpdate:
-								other = true
-							}
-						}
-					}
-					if len(stores) != 1 || other {
-						s.Bad(key, c.P.Pos(g.Pos()), fmt.Sprintf("the option closure performs %d stores (and calls: %v); an option must set exactly its own field", len(stores), other))
+					if len(ap.stores) != 1 || ap.other {
+						s.Bad(key, c.P.Pos(f.Pos()), fmt.Sprintf("the option closure performs %d stores (and calls: %v); an option must set exactly its own field", len(ap.stores), ap.other))
 						continue
 					}
-					st := stores[0]
-					fa, ok := st.Addr.(*ssa.FieldAddr)
-					if !ok || fa.X != ssa.Value(g.Params[0]) || namedOf(fa.X.Type()) != t.typ {
-						s.Bad(key, c.P.Pos(st.Pos()), "the option closure does not store into a field of the options it is applied to")
+					st := ap.stores[0]
+					if st.addr.kind != "field" || st.addr.typ != t.typ {
+						s.Bad(key, c.P.Pos(st.pos), "the option closure does not store into a field of the options it is applied to")
 						continue
 					}
-					field := strings.TrimPrefix(fieldElem(fa.X.Type(), fa.Field), t.typ+":")
+					field := st.addr.name
 					writer[field] = append(writer[field], n)
 					want := lowerFirst(strings.TrimPrefix(n, "With"))
 					if a, ok := optionAliases[n]; ok {
 						want = a
 					}
-					// value
 					valOK := false
-					if v, ok := constBool(st.Val); ok && v && f.Signature.Params().Len() == 0 {
-						valOK = true
-					}
-					val := st.Val
-					if ld, ok := val.(*ssa.UnOp); ok && ld.Op == token.MUL {
-						val = ld.X // captured by reference: *cell
-					}
-					if fv, ok := val.(*ssa.FreeVar); ok && mc != nil {
-						for i, x := range g.FreeVars {
-							if x == fv && i < len(mc.Bindings) {
-								switch bnd := mc.Bindings[i].(type) {
-								case *ssa.Parameter:
-									valOK = bnd.Parent() == f
-								case *ssa.Alloc:
-									// the cell of a captured parameter: written once, with the parameter
-									n := 0
-									for _, r := range *bnd.Referrers() {
-										if st2, ok := r.(*ssa.Store); ok && st2.Addr == ssa.Value(bnd) {
-											n++
-											if p, ok := st2.Val.(*ssa.Parameter); !ok || p.Parent() != f {
-												n = 99
-											}
-										}
-									}
-									valOK = n == 1
-								}
-							}
+					switch st.val.kind {
+					case "const":
+						if v, ok := constBool(st.val.v); ok && v && f.Signature.Params().Len() == 0 {
+							valOK = true
 						}
+					case "ctorparam":
+						valOK = true
 					}
 					switch {
 					case field != want:
-						s.Bad(key, c.P.Pos(st.Pos()), fmt.Sprintf("%s sets the field %s; its name says %s", n, field, want))
+						s.Bad(key, c.P.Pos(st.pos), fmt.Sprintf("%s sets the field %s; its name says %s", n, field, want))
 					case !valOK:
-						s.Bad(key, c.P.Pos(st.Pos()), "the stored value is neither the constructor's argument nor the constant true")
+						s.Bad(key, c.P.Pos(st.pos), "the stored value is neither the constructor's argument nor the constant true")
 					default:
-						s.OK(key, c.P.Pos(st.Pos()), "sets "+t.typ+"."+field)
+						s.OK(key, c.P.Pos(st.pos), "sets "+t.typ+"."+field)
 					}
 				}
 				for _, fld := range fields {
